@@ -341,7 +341,9 @@ fn gen_cfg(r: &mut Rng, class: &str) -> Cfg {
     };
     let (pp, tot, cc) = match class {
         "limits" => (r.range(1, 2) as usize, r.range(1, 3) as usize, r.range(1, 3) as usize),
-        "cookies" => (3, 8, r.range(0, 3) as usize),
+        // small caches (eviction) and caches large enough that no cookie of the case is ever evicted, so
+        // that the Spec's per-cookie clause judges every re-presented cookie
+        "cookies" => (3, 8, *r.pick(&[0usize, 1, 2, 3, 3, 6, 64, 64])),
         "refresh" => (r.range(1, 2) as usize, r.range(2, 4) as usize, 2),
         _ => (r.range(1, 3) as usize, r.range(1, 6) as usize, r.range(1, 3) as usize),
     };
@@ -556,6 +558,16 @@ fn scripted() -> Vec<(&'static str, Cfg, Vec<Op>)> {
             "cookie_eviction",
             Cfg { min: G, max: 4 * G, pp: 3, tot: 8, cc: 1 },
             vec![reg(0, 0, G), reg(1, 1, G), disc(None, None, Some(1)), disc(Some(1), None, None), disc(None, Some((0, None)), None), disc(None, Some((2, None)), None), disc(None, None, Some(0)), Op::Adv(G), disc(None, None, None)],
+        ),
+        (
+            "cookie_replay",
+            Cfg { min: G, max: 4 * G, pp: 3, tot: 8, cc: 6 },
+            vec![
+                reg(0, 0, 2 * G), reg(1, 0, 2 * G), reg(2, 0, 2 * G), reg(3, 1, 2 * G),
+                disc(Some(0), None, Some(1)), disc(Some(0), Some((0, Some(0))), Some(1)), disc(Some(0), Some((0, Some(0))), Some(1)),
+                disc(Some(0), Some((0, Some(0))), None), disc(Some(0), Some((1, Some(0))), None), disc(None, None, Some(2)),
+                disc(None, Some((5, None)), None), disc(None, Some((5, None)), None), disc(Some(0), Some((0, Some(0))), None),
+            ],
         ),
         (
             "ttl_bounds",
